@@ -30,6 +30,7 @@ TRUSTED = ['A1 float == real; A2 object arrays == float arrays',
 ASSUMPTIONS = ['nodes pairwise distinct (property precondition); any order, any spacing, any x0']
 NOT_DECIDED = ['rounding scaled by the conditioning of the node set']
 BOUNDED = ['exact-weights: fd_weights_all / fd_weights on floats against exact rational Lagrange weights for 120 (node set, x0, n) cases: up to 14 nodes and order 13, node sets at scale 2**-30 and 2**20, nearly equidistant nodes -- executed, not proved',
+           'call-history: sequences of calls in one process on nearly coinciding node sets (spacings 1e-13, shifts of 1e-13, translated stencils, same nodes with another x0), each answer against the exact rational weights of its own nodes -- executed, not proved (the proved step/base/exit obligations are per call; that nothing is carried between calls is the frame:shared-state obligation)',
            'integer-nodes: integer-typed node lists / arrays with fractional x0 compared with float nodes on concrete cases (executed with the real numpy, not proved)',
            'the loop index i must be concrete for numpy (np.arange): the step is checked for every i <= m-1 with m up to 14 '
            '(the property\'s range); the state is havoc\'d, so each step is independent of how many iterations precede']
@@ -60,6 +61,7 @@ def groups(tier):
     out.append(('direct', ('direct',)))
     out.append(('exact-weights', ('exactw',)))
     out.append(('integer-nodes', ('intnodes',)))
+    out.append(('call-history', ('history',)))
     return out
 
 
@@ -284,7 +286,17 @@ def run_exactw():
                not bad, kind='bounded', note=str(bad[:1])[:400])
     return {}
 
+def run_history():
+    from ndvc.concrete import fd_weights_history_cases
+    cnt, bad = fd_weights_history_cases(mods()['fb'])
+    solve.fact('every-call-of-a-sequence-on-nearly-coinciding-node-sets==exact-rational-Lagrange-weights-of-its-own-nodes[%d calls]' % cnt,
+               not bad, kind='bounded', note=str(bad[:1])[:400])
+    return {}
+
+
 def run_group(args):
+    if args[0] == 'history':
+        return run_history()
     if args[0] == 'exactw':
         return run_exactw()
     if args[0] == 'intnodes':
@@ -295,6 +307,9 @@ def run_group(args):
 
 
 def replay_case(ob):
+    if ob['name'].startswith('call-history/') or '/T:' in ob['name']:
+        # also for a refuted frame obligation (new module-level state): the observable consequence is history dependence
+        return dict(kind='C15.history')
     if ob['name'].startswith('exact-weights/'):
         return dict(kind='C15.exactw')
     if ob['name'].startswith('integer-nodes/'):
